@@ -11,7 +11,7 @@
    write wins) through the Go map of the block's private cache, enumerated in ANY order, to the batch MapToMPTBatch
    builds (prefix stripped, nibble paths, sorted), and the induction over blocks. *)
 From Coq Require Import Permutation.
-From NG Require Import Common.Tactics StateRoot.Model StateRoot.Order StateRoot.Proofs StateRoot.Concrete.
+From NG Require Import Common.Tactics StateRoot.Model StateRoot.Order StateRoot.Proofs StateRoot.Concrete StateRoot.Drops.
 Open Scope N_scope.
 
 (* the batch does not depend on the iteration order of the change map *)
@@ -190,6 +190,47 @@ Theorem C03_interface_discharged :
      (forall t k p v, creachable t -> cverify H (croot H t) k p = Some v -> sm_get k (ccontent t) = Some v \/ ccollision H)).
 Proof. exact interface_discharged. Qed.
 Print Assumptions C03_interface_discharged.
+
+(* ================= blocks REFUSED after their MPT batch was applied =================
+   (StateRoot/Drops.v) the module = (stored trie, what its in-memory trie object denotes, what StateRoot() of that
+   object returns, the mptPending flag); [MRej]: a block executed up to and including AddMPTBatch and refused;
+   [leak] / [seen] — what the refused batch does to the shared in-memory nodes and cached hashes — are ARBITRARY. *)
+
+(* with the flag policy of the module as it stands the stored trie commits to the storage made by the ACCEPTED
+   blocks alone, whatever the refused ones did to the memory *)
+Theorem C03_root_commits_with_drops :
+  forall (trie hashT : Type) (empty_trie : trie) (content : trie -> smap) (apply_batch : trie -> list change -> trie)
+         (root : trie -> hashT) (hash_eqb : hashT -> hashT -> bool) (tinv : trie -> Prop) (ok : change -> Prop)
+         (leak : trie -> list change -> trie) (seen : trie -> list change -> hashT),
+  iface_base empty_trie content apply_batch tinv ok ->
+  forall evs, Forall (mev_ok ok) evs ->
+    content (m_stored trie hashT (mrun trie hashT apply_batch root hash_eqb leak seen PFlag (minit trie hashT empty_trie root) evs))
+      = storage_after [] (accepted evs) /\
+    tinv (m_stored trie hashT (mrun trie hashT apply_batch root hash_eqb leak seen PFlag (minit trie hashT empty_trie root) evs)).
+Proof. exact root_commits_with_drops_init. Qed.
+Print Assumptions C03_root_commits_with_drops.
+
+Theorem C03_root_commits_with_drops_concrete : forall (H : Trie.Model.bytes -> Trie.Model.bytes) evs,
+  Forall (mev_ok cok) evs ->
+  ccontent (m_stored Trie.Model.node Trie.Model.bytes (cmrun H PFlag evs)) = storage_after [] (accepted evs).
+Proof. exact root_commits_with_drops_concrete. Qed.
+Print Assumptions C03_root_commits_with_drops_concrete.
+
+(* "re-open the trie only if the in-memory root no longer hashes to the accepted root" is NOT equivalent: on an
+   extension-rooted trie (every key shares the first nibble, as on a chain with native contracts only) the root
+   extension keeps its cached hash while the refused batch changed what lies below it ([cseen]); witness on the concrete
+   trie: F1, F2 accepted, F3 refused, F4 accepted — the stored trie holds F3 *)
+Definition C03_hash_compare_reload_statement : Prop := forall H, hash_compare_statement H.
+Theorem C03_hash_compare_reload_refuted : ~ hash_compare_statement dH.
+Proof. exact hash_compare_refuted. Qed.
+Print Assumptions C03_hash_compare_reload_refuted.
+
+Example C03_drops_example :
+  Forall (mev_ok cok) dw_evs /\
+  ccontent (m_stored Trie.Model.node Trie.Model.bytes (cmrun dH PFlag dw_evs)) = [([241], [1]); ([242], [2]); ([244], [4])] /\
+  match m_stored Trie.Model.node Trie.Model.bytes (cmrun dH PFlag (firstn 1 dw_evs)) with
+  | Trie.Model.Ext [15%nat] (Trie.Model.Branch _ _) => True | _ => False end.
+Proof. split; [exact dw_ok|exact dw_flag]. Qed.
 
 (* non-vacuity of the concrete statements: two blocks through the concrete trie *)
 Example C03_concrete_example :
